@@ -209,6 +209,96 @@ Definition serve_bounded {R} (cap : nat) (F : list backend -> ctx -> request -> 
   | _ => serve F bs inflight tok now c r
   end.
 
+(* ---- one call of the shadow proxy as a transition system ----
+   The functional model above has no place for what the shadow proxy returns.  Here it has:
+   labels are the steps of the caller's goroutine (clone, spawn, the regular proxy returning)
+   and of the shadow goroutine (p2 returning ANY value y at ANY later point - before the
+   regular proxy, after the caller has long returned, or never - then cancel()), plus the
+   client's context being cancelled.  The state keeps the value p2 returned in a slot of its
+   own; the caller's result is written by the LRegular step only. *)
+Inductive phase := PStart | PCloned | PSpawned | PReturned.
+Inductive plabel (S : Type) :=
+| LClone               (* CloneRequest(request): reads the WHOLE body, synchronously *)
+| LSpawn               (* go func() { p2(shadowCtx, shadowRequest); cancel() }() *)
+| LRegular             (* p1(ctx, request) returns; the shadow proxy returns that *)
+| LShadow (y : S)      (* p2 returns y *)
+| LShadowCancel        (* cancel() after p2 *)
+| LClientCancel.       (* the client's context is cancelled (client gone, endpoint timeout) *)
+Arguments LClone {S}. Arguments LSpawn {S}. Arguments LRegular {S}. Arguments LShadow {S} y.
+Arguments LShadowCancel {S}. Arguments LClientCancel {S}.
+
+Record cstate (R S : Type) := {
+  c_phase : phase;
+  c_src : request;                 (* the caller's request (its body: what is still unread) *)
+  c_clone : option request;        (* the shadow request *)
+  c_result : option R;             (* what the caller of the shadow proxy got *)
+  c_shadow_running : bool;
+  c_shadow_value : option S;       (* what p2 returned: stored nowhere by the code *)
+  c_shadow_cancelled : bool;       (* cancel() of the shadow context was called *)
+  c_client_cancelled : bool }.
+Arguments c_phase {R S}. Arguments c_src {R S}. Arguments c_clone {R S}. Arguments c_result {R S}.
+Arguments c_shadow_running {R S}. Arguments c_shadow_value {R S}.
+Arguments c_shadow_cancelled {R S}. Arguments c_client_cancelled {R S}.
+
+Definition cinit {R S} (r : request) : cstate R S :=
+  {| c_phase := PStart; c_src := r; c_clone := None; c_result := None; c_shadow_running := false;
+     c_shadow_value := None; c_shadow_cancelled := false; c_client_cancelled := false |}.
+
+(* p1: the regular proxy as a function of (client context cancelled?, the request it is handed);
+   None = the label is not enabled in that state *)
+Definition cstep {R S} (p1 : bool -> request -> R) (s : cstate R S) (l : plabel S) : option (cstate R S) :=
+  match l with
+  | LClone =>
+      match c_phase s with
+      | PStart => let '(src, cl) := clone_request (c_src s) in
+                  Some {| c_phase := PCloned; c_src := src; c_clone := Some cl; c_result := c_result s;
+                          c_shadow_running := false; c_shadow_value := c_shadow_value s;
+                          c_shadow_cancelled := c_shadow_cancelled s; c_client_cancelled := c_client_cancelled s |}
+      | _ => None
+      end
+  | LSpawn =>
+      match c_phase s with
+      | PCloned => Some {| c_phase := PSpawned; c_src := c_src s; c_clone := c_clone s; c_result := c_result s;
+                           c_shadow_running := true; c_shadow_value := c_shadow_value s;
+                           c_shadow_cancelled := c_shadow_cancelled s; c_client_cancelled := c_client_cancelled s |}
+      | _ => None
+      end
+  | LRegular =>
+      match c_phase s with
+      | PSpawned => Some {| c_phase := PReturned; c_src := c_src s; c_clone := c_clone s;
+                            c_result := Some (p1 (c_client_cancelled s) (c_src s));
+                            c_shadow_running := c_shadow_running s; c_shadow_value := c_shadow_value s;
+                            c_shadow_cancelled := c_shadow_cancelled s; c_client_cancelled := c_client_cancelled s |}
+      | _ => None
+      end
+  | LShadow y =>
+      if c_shadow_running s then
+        Some {| c_phase := c_phase s; c_src := c_src s; c_clone := c_clone s; c_result := c_result s;
+                c_shadow_running := false; c_shadow_value := Some y;
+                c_shadow_cancelled := c_shadow_cancelled s; c_client_cancelled := c_client_cancelled s |}
+      else None
+  | LShadowCancel =>
+      match c_shadow_value s, c_shadow_cancelled s with
+      | Some _, false => Some {| c_phase := c_phase s; c_src := c_src s; c_clone := c_clone s; c_result := c_result s;
+                                 c_shadow_running := false; c_shadow_value := c_shadow_value s;
+                                 c_shadow_cancelled := true; c_client_cancelled := c_client_cancelled s |}
+      | _, _ => None
+      end
+  | LClientCancel =>
+      Some {| c_phase := c_phase s; c_src := c_src s; c_clone := c_clone s; c_result := c_result s;
+              c_shadow_running := c_shadow_running s; c_shadow_value := c_shadow_value s;
+              c_shadow_cancelled := c_shadow_cancelled s; c_client_cancelled := true |}
+  end.
+
+Fixpoint crun {R S} (p1 : bool -> request -> R) (s : cstate R S) (ls : list (plabel S)) : option (cstate R S) :=
+  match ls with
+  | [] => Some s
+  | l :: r => match cstep p1 s l with Some s' => crun p1 s' r | None => None end
+  end.
+
+Definition is_shadow_label {S} (l : plabel S) : bool :=
+  match l with LShadow _ | LShadowCancel => true | _ => false end.
+
 (* merge timeout of a multi-backend pipeline: time.Duration(85*ns/100) *)
 Definition merge_timeout (endpoint_timeout : Z) : Z := Z.quot (85 * endpoint_timeout)%Z 100%Z.
 
@@ -396,6 +486,38 @@ Definition shadow_stack (k : stackcfg) : prog :=
   map Acc (stack_accs OShadowPriv k (root_view OClone (cl FQry))).
 Definition regular_stack (k : stackcfg) : prog :=
   map Acc (stack_accs ORegPriv k (root_view OClient (cl FQry))).
+
+(* ---- sequential merge (merging.go sequentialMerge, two backends) on a request in view v ----
+   Per backend: reqCloner(request) (CloneRequest when some backend method is unsafe, the
+   shallow Clone otherwise), sequentialRequestPart (a deep copy kept aside, the backend stack
+   on the part's request, then `*request = *copyRequest`); between the backends the merger
+   writes the propagated value into request.Params (the Params map of the request it was
+   handed: an in-place write).  priv numbers the allocations of this side. *)
+Definition clone_into (o : owner) (v : sview) : list acc * sview :=
+  ([Rd (v_struct v); Rd (v_hdr v); Rd (v_hvals v); Wr (Ob o FHdrVals) VUnset; Wr (Ob o FHdr) VUnset;
+    Rd (v_par v); Wr (Ob o FPar) VUnset; Rd (v_body v); Wr (v_body v) VUnset; Wr (v_struct v) VUnset;
+    Wr (Ob o FBody) VUnset; Wr (Ob o FStruct) VUnset],
+   {| v_struct := Ob o FStruct; v_hdr := Ob o FHdr; v_hvals := Ob o FHdrVals; v_qry := v_qry v;
+      v_par := Ob o FPar; v_body := Ob o FBody |}).
+Definition shallow_into (o : owner) (v : sview) : list acc * sview :=
+  ([Rd (v_struct v); Wr (Ob o FStruct) VUnset],
+   {| v_struct := Ob o FStruct; v_hdr := v_hdr v; v_hvals := v_hvals v; v_qry := v_qry v;
+      v_par := v_par v; v_body := v_body v |}).
+
+Definition seq_part (priv : nat -> owner) (base : nat) (deep : bool) (k : stackcfg) (v : sview) : list acc :=
+  let '(a1, c) := (if deep then clone_into else shallow_into) (priv base) v in
+  let '(a2, _) := clone_into (priv (base + 1)) c in
+  (a1 ++ a2 ++ stack_accs (fun n => priv (base + 2 + n)) k c ++ [Wr (v_struct c) VUnset])%list.
+
+Definition seq_merge_accs (priv : nat -> owner) (deep : bool) (k1 k2 : stackcfg) (v : sview) : list acc :=
+  (seq_part priv 10 deep k1 v ++
+   [Rd (v_struct v); Rd (v_par v); Wr (v_par v) VUnset] ++      (* request.Params[Resp0_x] = ... *)
+   seq_part priv 20 deep k2 v)%list.
+
+Definition shadow_seq (deep : bool) (k1 k2 : stackcfg) : prog :=
+  map Acc (seq_merge_accs OShadowPriv deep k1 k2 (root_view OClone (cl FQry))).
+Definition regular_seq (deep : bool) (k1 k2 : stackcfg) : prog :=
+  map Acc (seq_merge_accs ORegPriv deep k1 k2 (root_view OClient (cl FQry))).
 
 (* ---- value slices ---- *)
 (* a stage that rewrites header values in place (h[k][0] = "redacted": a request modifier may),
